@@ -1758,7 +1758,7 @@ namespace awkward {
         theirlength);
       util::handle_error(err2, classname(), identities_.get());
     }
-    if (std::is_same<T, int64_t>::value) {
+    else if (std::is_same<T, int64_t>::value) {
       struct Error err2 = kernel::IndexedArray_fill<int64_t, int64_t>(
         kernel::lib::cpu,   // DERIVE
         index.data(),
